@@ -10,11 +10,19 @@
      - C20_destroy_clean              a successful Allocator.Destroy leaves the allocator without any block, pool or
                                       dedicated allocation and the DEVICE WITHOUT ANY MEMORY OBJECT (hence without
                                       any mapping), and all allocator invariants still hold.
-   OPEN (not yet covered here): the retention bound (after freeing, a list keeps at most max(1, minBlockCount) empty
-   blocks), the analogue of destroy_clean for Pool.Destroy, and the steps of a defragmentation run (Vam.dstep). *)
+     - C20_retention_bound            in every reachable state every block list (default or custom pool) holds at
+                                      most max(1, MinBlockCount) EMPTY blocks — also right after a failed or refused
+                                      (multi-)allocation, whose unwind keeps its blocks (repair 0afebd6) and then releases
+                                      the blocks the request created; the bound does not depend on the incremental sort,
+     - C20_retention_after_free_all   hence after all allocations were freed a list holds at most max(1, MinBlockCount)
+                                      blocks (clause 1 of the property),
+     - C20_block_count_bounds         and MinBlockCount <= #blocks <= MaxBlockCount throughout.
+   (reachL: reach with pools created with MinBlockCount >= 0; reachL_reach : reachL c v -> reach c v.)
+   OPEN (not yet covered here): the analogue of destroy_clean for Pool.Destroy, and the steps of a
+   defragmentation run (Vam.dstep). *)
 From Coq Require Import ZArith List Lia.
-From Arsenal Require Import VamDev VamBlockList Vam VamInvMeta VamInv VamInvThm VamProps.
-From Arsenal Require Bits.
+From Arsenal Require Import VamDev VamBlockList Vam VamInvMeta VamInv VamInvThm VamProps VamShape VamShapeStep.
+From Arsenal Require Bits VamAcctThm VamAcctProps.
 Import ListNotations.
 Open Scope Z_scope.
 
@@ -46,6 +54,30 @@ Theorem C20_destroy_clean : forall c v v',
   (forall s a, ~ slot_is v' s a).
 Proof. intros c v v' Hc R. apply destroy_clean; auto. apply reach_inv; auto. Qed.
 Print Assumptions C20_destroy_clean.
+
+Theorem C20_retention_bound : forall c v lr l,
+  cfg_ok c -> reachL c v -> get_blist v lr = Some l -> cnt_empty (bl_blocks l) <= Z.max 1 (bl_min l).
+Proof. intros c v lr l Hc. apply retention_bound. exact Hc. Qed.
+Print Assumptions C20_retention_bound.
+
+Theorem C20_retention_after_free_all : forall c v lr l,
+  cfg_ok c -> reachL c v -> get_blist v lr = Some l -> (forall s a, ~ slot_is v s a) ->
+  zlen (bl_blocks l) <= Z.max 1 (bl_min l).
+Proof. intros c v lr l Hc. apply retention_after_free_all. exact Hc. Qed.
+Print Assumptions C20_retention_after_free_all.
+
+Theorem C20_block_count_bounds : forall c v lr l,
+  cfg_ok c -> reachL c v -> get_blist v lr = Some l -> bl_min l <= zlen (bl_blocks l) <= bl_max l.
+Proof. intros c v lr l Hc. apply pool_block_bounds. exact Hc. Qed.
+Print Assumptions C20_block_count_bounds.
+
+(* Destroy on a reachable allocator without live allocations and without pools SUCCEEDS: it neither refuses
+   nor panics nor gets stuck (domain of the budget counters: sizes below 2^62, cfg_acct). *)
+Theorem C20_destroy_never_fails : forall c v,
+  VamAcctThm.cfg_acct c -> VamAcctThm.reachA c v -> (forall s a, ~ slot_is v s a) -> v_pools v = [] ->
+  exists v', allocator_destroy c v = (v', OK tt).
+Proof. intros c v Ha. exact (VamAcctProps.destroy_never_fails c Ha v). Qed.
+Print Assumptions C20_destroy_never_fails.
 
 (* non-vacuity: one 1 MiB heap, two types; a block allocation and a dedicated one; Destroy is refused and changes
    nothing; after freeing both, Destroy succeeds and the device holds no memory object *)
